@@ -132,6 +132,24 @@ impl Table for Cedt {
         }
         v
     }
+    /// every XOR-map count 0..=255 (record sizes 8..2048), and fixed-memory windows related to the previous one
+    /// (adjacent, identical, overlapping), each between other records
+    fn sweeps(&self, _level: u8) -> Vec<(String, Vec<Op>)> {
+        let mut v = vec![];
+        let hb = Op::new(C_CHBS, 0, 2);
+        for n in 0..=255u16 {
+            v.push((format!("cxims[{} maps]", n), vec![hb, Op::new(C_CXIMS, n, if n % 2 == 0 { 2 } else { 1 }), Op::new(C_CFMWS, cfmws_shape(1, 0x1f), 2)]));
+        }
+        let wnd = |base: u64, size: u64, ways: u16, restr: u16| Op { k: C_CFMWS, shape: cfmws_shape(ways, restr), fill: Fill::b(2).with(0, base).with(1, size) };
+        for (b, l) in [(0x1_0000_0000u64, 0x4000_0000u64), (0, 0x1000_0000), (0x80_0000_0000, 0x100_0000_0000)] {
+            for (wa, wb) in [(0u16, 0u16), (1, 1), (1, 2), (5, 0)] {
+                v.push((format!("adjacent-windows[{:#x},{}{}]", b, wa, wb), vec![wnd(b, l, wa, 0x1f), wnd(b + l, l, wb, 0x1f), hb, wnd(b + 2 * l, l, wa, 0)]));
+            }
+            v.push((format!("identical-windows[{:#x}]", b), vec![wnd(b, l, 1, 4), wnd(b, l, 1, 4), wnd(b, l, 1, 4)]));
+            v.push((format!("overlapping-windows[{:#x}]", b), vec![wnd(b, l, 2, 4), wnd(b + l / 2, l, 2, 4)]));
+        }
+        v
+    }
     fn run(&self, c: &Ctor, ops: &[Op], obs: &mut dyn FnMut(usize, &dyn Aml, &[u32])) {
         let mut t = cedt::CEDT::new(c.oem_id(), c.oem_table_id(), c.oem_rev());
         obs(0, &t, &[]);
